@@ -13,6 +13,7 @@
 #include <algorithm>
 #include <cmath>
 #include <functional>
+#include <iostream>
 #include <map>
 #include <set>
 #include <sstream>
@@ -220,7 +221,9 @@ void run(Src &src, Case &c)
     const size_t n = gt.classes.size();
     auto failNow = [&](const std::string &sig, const std::string &msg) { c.fail(sig, msg); };
     // A failure that is a listed finding does not end the case: the remaining oracles still run.
-    auto report = [&](const std::string &sig, const std::string &msg) -> bool {
+    std::string sigNote; // input-class token appended to every signature once set (localises a listed finding)
+    auto report = [&](const std::string &sig0, const std::string &msg) -> bool {
+        const std::string sig = sig0 + sigNote;
         c.alsoFailed.emplace_back(sig, msg);
         return knownFindingIndex("C20", sig) >= 0;
     };
@@ -352,7 +355,11 @@ void run(Src &src, Case &c)
                 continue;
             }
             any.push_back(static_cast<int>(k));
-            if (kindSel[i] < 5 ? cl.role == wanted[kindSel[i]] : (kindSel[i] < 7 ? readByOthers[k] : true)) {
+            bool initialisesState = false;
+            for (const auto &o : gt.classes) {
+                initialisesState = initialisesState || o.initialisedBy == static_cast<int>(k);
+            }
+            if (kindSel[i] < 5 ? cl.role == wanted[kindSel[i]] : (kindSel[i] == 5 ? readByOthers[k] : (kindSel[i] == 6 ? initialisesState : true))) {
                 cand.push_back(static_cast<int>(k));
             }
         }
@@ -484,6 +491,19 @@ void run(Src &src, Case &c)
         return b.vars[static_cast<size_t>(in.comp)][static_cast<size_t>(in.var)];
     };
 
+    if (!U.empty()) {
+        // The removed definitions must leave the classes of U unknown. The analyser reads some documents differently
+        // (an equation of an NLA system with initial guesses that mentions the class is taken for its definition):
+        // those variants are not under-constrained models in its eyes and the statement does not speak about them.
+        auto analyserV = Analyser::create();
+        analyserV->analyseModel(bV.model);
+        if (analyserV->model() != nullptr && analyserV->model()->isValid()) {
+            c.count("excluded:variant-without-definitions-still-valid");
+            c.hash = hashStr(c.text + "|variant-valid");
+            return;
+        }
+        c.cls(std::string("variant-without-externals:") + (analyserV->model() != nullptr ? AnalyserModel::typeAsString(analyserV->model()->type()) : "null"));
+    }
     auto analyser = Analyser::create();
     std::ostringstream desc;
     desc << "\n--- C20\n";
@@ -572,6 +592,9 @@ void run(Src &src, Case &c)
         }
     }
     c.text += desc.str();
+    if (!U.empty()) {
+        c.text += "--- the document analysed with externals (definitions removed)\n" + specToText(gtV.spec) + "\n";
+    }
     c.hash = hashStr(c.text);
     c.weight = c.text.size();
     VP_CHECK(c, underOk, "C20.harness|underconstrain", "could not locate the defining equation of a class in the spec");
@@ -684,6 +707,24 @@ void run(Src &src, Case &c)
         }
     }
 
+    // Input class of a listed finding: a marked variable that keeps its defining equation, and that equation reads
+    // (directly or through other equations) a class without definition. Both are unknown when the analyser promotes
+    // "unknown externals" to initialised variables, and the equation is then taken for an NLA equation.
+    for (int m : M) {
+        const GtClass &mc = gt.classes[static_cast<size_t>(m)];
+        if (std::find(U.begin(), U.end(), m) != U.end() || (mc.role != GtRole::COMPUTED_CONSTANT && mc.role != GtRole::ALGEBRAIC && mc.role != GtRole::NLA)) {
+            continue;
+        }
+        for (int u : U) {
+            if (dep[static_cast<size_t>(m)][static_cast<size_t>(u)]) {
+                sigNote = "|external-equation-reads-unknown";
+            }
+        }
+    }
+    if (!sigNote.empty()) {
+        c.cls("external-equation-reads-unknown");
+    }
+
     // (3) validity
     if (partialNla) {
         // n equations for fewer unknowns: the library documents the outcome (over-constrained); not part of the statement
@@ -692,9 +733,9 @@ void run(Src &src, Case &c)
         return;
     }
     if (!uSubset) {
-        if (am1->isValid()) {
-            report("C20.validity|valid-with-unbound-unknown", "a class without definition is not marked external, yet the model is " + type1 + "\nissues:\n" + issuesText);
-        }
+        // The statement promises nothing here. (The model may even be valid: when a marked variable keeps an equation
+        // that mentions the unbound unknown, the analyser solves that equation for the unknown.)
+        c.cls(std::string("U-not-subset-of-S:") + (am1->isValid() ? "valid" : "not-valid"));
         c.count("not-executed:U-not-subset-of-S");
         return;
     }
@@ -721,6 +762,24 @@ void run(Src &src, Case &c)
             if (!report("C20.model-type|" + AnalyserModel::typeAsString(want) + "->" + type1, "with the externals treated as inputs the model should be " + AnalyserModel::typeAsString(want) + " (without externals: " + AnalyserModel::typeAsString(am0->type()) + "), the analyser says " + type1)) {
                 return;
             }
+        }
+    }
+    if (getenv("C20_DEBUG") != nullptr) {
+        auto vname = [](const AnalyserVariablePtr &v) { return std::dynamic_pointer_cast<Component>(v->variable()->parent())->name() + "." + v->variable()->name(); };
+        for (size_t i = 0; i < am1->equationCount(); ++i) {
+            auto e = am1->equation(i);
+            std::cerr << "equation " << i << " " << AnalyserEquation::typeAsString(e->type()) << " computes";
+            for (const auto &v : e->variables()) {
+                std::cerr << " " << vname(v) << "[" << AnalyserVariable::typeAsString(v->type()) << "]";
+            }
+            std::cerr << " deps:";
+            for (const auto &d : e->dependencies()) {
+                for (const auto &v : d->variables()) {
+                    std::cerr << " " << vname(v);
+                }
+                std::cerr << ";";
+            }
+            std::cerr << "\n";
         }
     }
     GtMapping map1;
@@ -969,6 +1028,22 @@ void run(Src &src, Case &c)
     RunResult rc, rp;
     std::vector<std::string> seqC, seqP;
     auto valuesOk = [&](const char *lang, const RunResult &r, const std::string &impl) -> bool {
+        // A state whose initial value is the name of a constant that is marked external (localised on its own: a listed
+        // finding; every later value at point 0 would only repeat it, so the case ends here when it shows).
+        for (size_t i = 0; i < map1.states.size(); ++i) {
+            const GtClass &sc = gt.classes[static_cast<size_t>(map1.states[i].first)];
+            if (sc.initialisedBy < 0 || !marked[static_cast<size_t>(sc.initialisedBy)]) {
+                continue;
+            }
+            c.cls("state-initialised-by-external-constant");
+            double want = ref.model.instanceValue(map1.states[i].first, map1.states[i].second, 0);
+            double got = i < r.initStates.size() ? r.initStates[i] : std::nan("");
+            if (!closeEnough(got, want, kTol)) {
+                report(std::string("C20.value|") + lang + "|init-states|state-initialised-by-external-constant", "states[" + std::to_string(i) + "] (" + instLabel(gt, map1.states[i].first, map1.states[i].second) + ") is initialised with the value of " + instLabel(gt, sc.initialisedBy, 0) + ", which is external: after initialiseVariables it is " + std::to_string(got) + ", the callback returned " + std::to_string(want) + "\n--- implementation ---\n" + impl.substr(0, 8000));
+                c.count("excluded:state-initialised-by-external-constant(rest not compared)");
+                return false;
+            }
+        }
         std::string d = compareRunWithTruth(ref.model, map1, r, kTol, &comparisons);
         if (!d.empty()) {
             if (!report(std::string("C20.value|") + lang + "|" + d.substr(0, d.find('\n')) + "|" + ctx, d.substr(d.find('\n') + 1) + "\n--- implementation ---\n" + impl.substr(0, 8000))) {
